@@ -30,7 +30,16 @@ package store
 // otherwise a historical store sees an empty tree and its proofs never verify against the committed root
 //@ func (*Store).Root
 //@   callsite NewDefaultSMT requires[treeprefix] dyn(arg0, *Txn).prefix == stateCommitIDPrefix
+// opening a commitment tree builds a NEW tree object over the transaction it is given (it may write the root
+// node into that transaction; nothing else): ASSUMED frame, the tree algorithm is outside the generator
+//@ func NewDefaultSMT
+//@   trusted
+//@   modifies map(uint64;valueOp), elems(uint8), box([]byte), ghost(mutexHeld), txn.*
+//@   ensures result != nil && fresh(result)
 //@ func (*Store).NewReadOnly
+// a read-only store never shares the live store's tree (which holds the block in progress): its tree is
+// built anew over the snapshot of the committed version, and it reports the version asked for
+//@   ensures[owntree] isnil(result1) ==> typeis(result0, *Store) && fresh(dyn(result0, *Store)) && dyn(result0, *Store).sc != nil && fresh(dyn(result0, *Store).sc) && dyn(result0, *Store).version == queryVersion
 //@   callsite NewDefaultSMT requires[treeprefix] dyn(arg0, *Txn).prefix == stateCommitIDPrefix
 
 // a proof of fewer than two nodes (target and sibling) is never accepted; node keys decoded from the
